@@ -5,12 +5,14 @@
 
 namespace vf {
 
-enum ParseEntry { PE_STATE_EX = 0, PE_STATE_Z, PE_SINGLE_Z, PE_SINGLE_EX, PE_SINGLE_EX_NULLEND, PE_SINGLE_MM, PE_COUNT };
+enum ParseEntry { PE_STATE_EX = 0, PE_STATE_Z, PE_SINGLE_Z, PE_SINGLE_EX, PE_SINGLE_EX_NULLEND, PE_SINGLE_MM, PE_SINGLE_Z_NOERR, PE_SINGLE_EX_NOERR, PE_COUNT };
 inline const char *entry_name(int e) {
-  static const char *n[] = {"ParseUriEx", "ParseUri", "ParseSingleUri", "ParseSingleUriEx", "ParseSingleUriEx(NULL end)", "ParseSingleUriExMm"};
+  static const char *n[] = {"ParseUriEx", "ParseUri", "ParseSingleUri", "ParseSingleUriEx", "ParseSingleUriEx(NULL end)", "ParseSingleUriExMm",
+                            "ParseSingleUri(errorPos NULL)", "ParseSingleUriEx(errorPos NULL)"};
   return n[e];
 }
-inline bool entry_needs_z(int e) { return e == PE_STATE_Z || e == PE_SINGLE_Z || e == PE_SINGLE_EX_NULLEND; }
+inline bool entry_needs_z(int e) { return e == PE_STATE_Z || e == PE_SINGLE_Z || e == PE_SINGLE_EX_NULLEND || e == PE_SINGLE_Z_NOERR; }
+inline bool entry_reports_errorpos(int e) { return e != PE_SINGLE_Z_NOERR && e != PE_SINGLE_EX_NOERR; }  // the optional output is passed as NULL there
 
 template <class A> struct Parsed {
   using Ch = typename A::Ch;
@@ -56,6 +58,8 @@ void parse_via(Parsed<A> &p, int e, const std::basic_string<typename A::Ch> &s, 
     case PE_SINGLE_Z: p.rc = A::ParseSingleUri(&p.uri, p.first(), &p.errorPos); break;
     case PE_SINGLE_EX: p.rc = A::ParseSingleUriEx(&p.uri, p.first(), p.afterLast(), &p.errorPos); break;
     case PE_SINGLE_EX_NULLEND: p.rc = A::ParseSingleUriEx(&p.uri, p.first(), nullptr, &p.errorPos); break;
+    case PE_SINGLE_Z_NOERR: p.rc = A::ParseSingleUri(&p.uri, p.first(), nullptr); break;
+    case PE_SINGLE_EX_NOERR: p.rc = A::ParseSingleUriEx(&p.uri, p.first(), p.afterLast(), nullptr); break;
     case PE_SINGLE_MM: p.mm = mm; p.rc = A::ParseSingleUriExMm(&p.uri, p.first(), p.afterLast(), &p.errorPos, mm ? &mm->mm : nullptr); break;
   }
   p.errorPosSet = p.errorPos != sentinel;
